@@ -17,7 +17,7 @@ RULE = ("full product over pairs of operations (ids x paths x tag layout) and pa
         "collision alphabets; deviation-bounded builder (d<=2 quick, d<=3 thorough) over 3 operations / 3 schemas with broken "
         "units, unsupported or broken responses and request media types, dependants of broken schemas at distance 1 and 2; "
         "oracle = census: every operation is served by its own generated module (found by calling it) or named by a diagnostic, "
-        "every object/enum schema has its own class or is named by a diagnostic; non-trivial = generated and census taken; every ordered selection of 1-3 request media types in one body; path items with shared (good / 5 broken) parameters x 4 methods each inheriting / re-declaring / absent; every builder document also under generate_all_tags; operations with an explicit empty tag list or with two tags; typed responses next to content-less statuses, request bodies on all eight methods (inline / by reference), broken-root dependant chains no operation mentions x related names x edge kinds; the census matches whole name tokens; every parameter declared by an operation or its path item (also by reference, also the same name in another location) is offered by the function or named; inline objects / enumerations nested in inline objects whose derived class names coincide (5 places x 6 naming routes x 2 kinds): each keeps a class of its own or is diagnosed")
+        "every object/enum schema has its own class or is named by a diagnostic; non-trivial = generated and census taken; every ordered selection of 1-3 request media types in one body; path items with shared (good / 5 broken) parameters x 4 methods each inheriting / re-declaring / absent; every builder document also under generate_all_tags; operations with an explicit empty tag list or with two tags; typed responses next to content-less statuses, request bodies on all eight methods (inline / by reference), broken-root dependant chains no operation mentions x related names x edge kinds; the census matches whole name tokens; components that are one-member allOf / oneOf / anyOf wrappers, alone or adding additionalProperties / required / properties, declared before / after their target; every parameter declared by an operation or its path item (also by reference, also the same name in another location) is offered by the function or named; inline objects / enumerations nested in inline objects whose derived class names coincide (5 places x 6 naming routes x 2 kinds): each keeps a class of its own or is diagnosed")
 FLOOR = 0.5
 ASSUMPTIONS = ["a diagnostic 'names' an item when the method and path (or the schema name) occur in its header+detail+data",
                "which class belongs to a component is read from the generator's own claim and then verified on the tree"]
@@ -85,6 +85,24 @@ def _schema_pairs():
                 yield {"labels": [f"inline-clash={style}", f"component={clash_kind}", first],
                        "payload": {"doc": gen.base_doc(comps), "key": "inline-clash"}}
             _ = clash
+
+
+def _wrapper_cases():
+    """A component that is a one-member allOf / oneOf / anyOf around a reference, alone (an alias of the referenced class) or adding
+    something of its own (then it is a schema of its own and needs its own class or a diagnostic)."""
+    base = {"type": "object", "required": ["id"], "properties": {"id": {"type": "integer"}, "label": {"type": "string"}}}
+    extras = {"alias": {}, "closed": {"additionalProperties": False}, "open": {"additionalProperties": True}, "typed-addl": {"additionalProperties": {"type": "string"}},
+              "requires": {"required": ["label"]}, "own-property": {"properties": {"own": {"type": "boolean"}}}, "empty-properties": {"properties": {}},
+              "described": {"description": "a described alias"}}
+    for kw in ("allOf", "oneOf", "anyOf"):
+        for ename, extra in extras.items():
+            if kw != "allOf" and ename not in ("alias", "described", "closed", "open"):
+                continue        # properties / required next to a one-member oneOf / anyOf: not a shape the supported subset defines
+            for order in ("base-first", "wrapper-first"):
+                w = {kw: [{"$ref": "#/components/schemas/Base"}], **copy.deepcopy(extra)}
+                comps = {"Base": copy.deepcopy(base), "Wrapped": w} if order == "base-first" else {"Wrapped": w, "Base": copy.deepcopy(base)}
+                paths = {"/w": {"get": {"operationId": "getW", "responses": {"200": {"description": "d", "content": {"application/json": {"schema": {"$ref": "#/components/schemas/Wrapped"}}}}}}}}
+                yield {"labels": [f"wrapper={kw}", f"adds={ename}", order], "payload": {"doc": gen.base_doc(comps, paths=paths), "key": f"wrapper/{kw}/{ename}", "alias_ok": ename in ("alias", "described", "empty-properties")}}
 
 
 BREAKS = {
@@ -379,6 +397,7 @@ def _run_inline(p):
 
 def cases(tier):
     yield from _inline_cases()
+    yield from _wrapper_cases()
     yield from _dependant_chain_cases()
     yield from _op_pairs()
     yield from _schema_pairs()
@@ -530,6 +549,8 @@ def run_case(p):
             is_enum = isinstance(sch, dict) and "enum" in sch
             if not (is_obj or is_enum):
                 continue
+            if p.get("alias_ok") and sname == "Wrapped":
+                continue        # a wrapper that adds nothing IS the referenced schema: it shares that class
             refname = f"/components/schemas/{sname}"
             named = _names(diag, sname)
             got = claims.get(refname)
